@@ -1628,6 +1628,8 @@ class Interp:
                 return None
         if isinstance(l, (NodeV, ObjV, ClassV)) and isinstance(r, (NodeV, ObjV, ClassV)):
             return l == r
+        if isinstance(l, FuncV) and isinstance(r, FuncV):
+            return l == r  # functions / bound methods: same function object bound to the same receiver
         if isinstance(l, Const) and isinstance(r, (NodeV, ObjV, ClassV, ListV, DictV)) and l.v is None:
             return False
         if isinstance(r, Const) and isinstance(l, (NodeV, ObjV, ClassV, ListV, DictV)) and r.v is None:
@@ -2101,6 +2103,8 @@ class Interp:
             return [(cfg, App("hasattr", tuple(args)))]
         if fname == "callable" and len(args) == 1 and isinstance(args[0], (FuncV, ClassV)):
             return [(cfg, TRUE)]
+        if fname == "callable" and len(args) == 1 and isinstance(args[0], (Const, ListV, DictV)):
+            return [(cfg, Const(callable(args[0].v)) if isinstance(args[0], Const) else FALSE)]
         return None
 
     def container_method(self, node, base, meth, args, kwargs, cfg):
